@@ -41,11 +41,19 @@ def cfg_of(meta):
     return out
 
 
+_REUSED_ATTR = None
+
+
 def _reused_set(psutil):
     """the module-level set is_running() reports recycled PIDs into, whatever it is called (found by role)"""
-    sys.path.insert(0, os.path.dirname(os.path.dirname(os.path.abspath(__file__))))
-    from contracts.common import reused_set_name
-    return getattr(psutil, reused_set_name())
+    global _REUSED_ATTR
+    if _REUSED_ATTR is None:
+        here = os.path.dirname(os.path.dirname(os.path.abspath(__file__)))
+        if here not in sys.path:
+            sys.path.insert(0, here)
+        from contracts.common import reused_set_name
+        _REUSED_ATTR = reused_set_name()
+    return getattr(psutil, _REUSED_ATTR)
 
 
 def scpu_pair(model, meta):
